@@ -64,9 +64,9 @@ def build_cases(encs, rng, tier, seed):
             continue
         for j in range(L + 2):
             k = rng.choice(USER_KINDS)
-            n = rng.randrange(100)
+            n = rand_msg(rng)
             entry = 'deserialize_reader' if rng.random() < 0.7 else rng.choice(ENTRIES[1:])
-            add('fail_at', tid, t, entry, h, ['d1'] * j + ['f%d:%d' % (k, n)], fail=(j, k, n))
+            add('fail_at', tid, t, entry, h, ['d1'] * j + [fail_item(k, n)], fail=(j, k, n))
         # kinds with a meaning of their own: UnexpectedEof (mapped by the crate) and Interrupted
         j = rng.randrange(L + 1)
         n = rng.randrange(100)
@@ -152,7 +152,7 @@ def oracle(c, hres, sl):
             if consumed is not None and j is not None and j < consumed and res == 'err InvalidData UnexpectedLength':
                 return ('EOF', 'an UnexpectedEof raised by the reader itself after %d of %d value bytes (message "user:%d") came back as %s' % (j, consumed, num, res))
             return None
-        want = 'err User:%d User:%d' % (k, num)
+        want = 'err User:%d %s' % (k, fail_msg(num))
         if consumed is not None and j is not None:
             if j < consumed:
                 if res != want:
